@@ -7,7 +7,7 @@ import time
 
 from hypothesis.stateful import RuleBasedStateMachine
 
-from .runner import Violation, SkipCase, _account, canon
+from .runner import Violation, SkipCase, CaseTimeout, note_timeout, _account, canon
 
 
 class HistoryMachine(RuleBasedStateMachine):
@@ -29,6 +29,10 @@ class HistoryMachine(RuleBasedStateMachine):
     def do(self, op):
         if self.dead:
             return
+        if getattr(self.CTX, "timeouts", 0) >= 2:
+            self.dead = True
+            self.STATS.budget_skipped += 1
+            return
         if time.time() > self.DEADLINE and not self.FAILED[0]:
             # (after a failure the budget no longer applies: a wall-clock limit
             # must never turn the replay of a failing history into a pass)
@@ -43,6 +47,9 @@ class HistoryMachine(RuleBasedStateMachine):
         except SkipCase:
             self.dead = True
             self.STATS.skipped += 1
+        except CaseTimeout:
+            self.dead = True
+            note_timeout(self.CTX, self.STATS)
         except Violation as v:
             v.case = json.loads(canon(case))
             self.FAILED[0] = True
